@@ -73,7 +73,7 @@ func vH_C01_read_step() {
 			pos++
 		}
 	}
-	m := vTrees[s.recvQueue.tr]
+	m := vModelOf(s.recvQueue)
 	for j := 0; j < vTreeK; j++ {
 		if j < m.n {
 			for i := 0; i < 2; i++ {
